@@ -643,6 +643,44 @@ func c11Sub(whole, sub []byte) (int, bool) {
 	return off, true
 }
 
+// c11Positions: offsets and lengths (in der) of the TBS, issuer, subject and SPKI elements by position; nil if the framing
+// is not plain enough to walk (then only aliasing and wholeness are checked).
+func c11Positions(der []byte) [][2]int {
+	_, hl0, l0, ok := c11ReadHeader(der)
+	if !ok || hl0+l0 != len(der) {
+		return nil
+	}
+	_, hl1, l1, ok := c11ReadHeader(der[hl0:])
+	if !ok {
+		return nil
+	}
+	out := [][2]int{{hl0, hl1 + l1}}
+	off, end := hl0+hl1, hl0+hl1+l1
+	idx := 0
+	if off < end && der[off] == 0xa0 {
+		_, h, l, ok := c11ReadHeader(der[off:end])
+		if !ok {
+			return nil
+		}
+		off += h + l
+	}
+	for off < end && idx < 6 {
+		_, h, l, ok := c11ReadHeader(der[off:end])
+		if !ok {
+			return nil
+		}
+		if idx == 2 || idx == 4 || idx == 5 {
+			out = append(out, [2]int{off, h + l})
+		}
+		off += h + l
+		idx++
+	}
+	if len(out) != 4 {
+		return nil
+	}
+	return out
+}
+
 func c11Envelope(der []byte) (cert *certificate, laxed bool, rest []byte, ok bool) {
 	cert = new(certificate)
 	rest, err := asn1.Unmarshal(der, cert)
@@ -680,7 +718,14 @@ func c11EnvAnswer(tbs *tbsCertificate, raw []byte, laxed bool, rest []byte) stri
 }
 
 func c11InnerClass(cert *certificate) (string, c11Out) {
-	o := c11Call(func() (interface{}, error) { return parseCertificate(cert) })
+	o := c11Call(func() (interface{}, error) {
+		c, err := parseCertificate(cert)
+		switch err.(type) {
+		case *Errors, *NonFatalErrors:
+			panic(fmt.Sprintf("parseCertificate returned an error of type %T (InnerOK: only nil, NonFatalErrors or an ordinary error)", err))
+		}
+		return c, err
+	})
 	switch {
 	case o.panick != "":
 		return "fatal", o
@@ -712,11 +757,22 @@ func TestVerifC11(t *testing.T) {
 		}
 	}
 
+	// ---- IsFatal on every kind of error value the package produces (replayed on the model's isFatal)
+	for _, k := range []struct {
+		n string
+		e error
+	}{{"nil", nil}, {"plain", fmt.Errorf("x")}, {"asn1", asn1.SyntaxError{Msg: "x"}}, {"nfe:0", NonFatalErrors{}}, {"nfe:2", NonFatalErrors{Errors: []error{fmt.Errorf("a"), fmt.Errorf("b")}}},
+		{"nfeptr:1", &NonFatalErrors{Errors: []error{fmt.Errorf("a")}}}, {"errs:-", &Errors{}}, {"errs:0", &Errors{Errs: []Error{{Fatal: false}}}},
+		{"errs:1", &Errors{Errs: []Error{{Fatal: true}}}}, {"errs:001", &Errors{Errs: []Error{{}, {}, {Fatal: true}}}}, {"errs:00", &Errors{Errs: []Error{{}, {}}}}} {
+		out.T("isfatal "+k.n, verifkit.B(IsFatal(k.e)))
+	}
+
 	// ---- one certificate through the certificate entry points
 	var pool [][]byte // inputs that parse (strictly or via lax) as exactly one certificate: pieces for the concatenation law
 	var poolInner []string
 	var poolLax []bool
 	nLaxPool := 0
+	nFatalPool := 0
 	oneTBS := func(tbs []byte, class string) {
 		out.Count("class:tbs-" + class)
 		to := c11Call(func() (interface{}, error) { return ParseTBSCertificate(tbs) })
@@ -760,6 +816,16 @@ func TestVerifC11(t *testing.T) {
 				out.Fail("incoherent parseCertificate "+hx, io.String())
 			}
 		}
+		if ok && len(rest) == 0 && ((laxed && nLaxPool < 200) || (inner == "fatal" && nFatalPool < 60) || (!laxed && inner != "fatal" && r.Intn(3) == 0 && len(pool)-nLaxPool-nFatalPool < 400)) {
+			if laxed {
+				nLaxPool++
+			} else if inner == "fatal" {
+				nFatalPool++
+			}
+			pool = append(pool, der)
+			poolInner = append(poolInner, inner)
+			poolLax = append(poolLax, laxed)
+		}
 		var parsed *Certificate
 		o := c11Call(func() (interface{}, error) {
 			c, err := ParseCertificate(der)
@@ -786,13 +852,20 @@ func TestVerifC11(t *testing.T) {
 			if len(parsed.Raw) != len(der) {
 				out.Fail("raw-slice Raw "+hx, "Raw is not the whole input")
 			}
-			if inner != "fatal" && ok && len(rest) == 0 && ((laxed && nLaxPool < 200) || (!laxed && r.Intn(3) == 0 && len(pool)-nLaxPool < 400)) {
-				if laxed {
-					nLaxPool++
+			// each raw field is the element at *its* position: TBS = first element of the certificate content; inside the TBS,
+			// after an optional [0] version: serial, signature, ISSUER, validity, SUBJECT, SPKI
+			if pos := c11Positions(der); pos != nil {
+				for _, f := range []struct {
+					n    string
+					b    []byte
+					want [2]int
+				}{{"RawTBSCertificate", parsed.RawTBSCertificate, pos[0]}, {"RawIssuer", parsed.RawIssuer, pos[1]}, {"RawSubject", parsed.RawSubject, pos[2]}, {"RawSubjectPublicKeyInfo", parsed.RawSubjectPublicKeyInfo, pos[3]}} {
+					if off, ok := c11Sub(der, f.b); ok && (off != f.want[0] || len(f.b) != f.want[1]) {
+						out.Fail("raw-slice position "+f.n+" "+hx, fmt.Sprintf("is input[%d:%d], the element at its position is input[%d:%d]", off, off+len(f.b), f.want[0], f.want[0]+f.want[1]))
+					}
 				}
-				pool = append(pool, der)
-				poolInner = append(poolInner, inner)
-				poolLax = append(poolLax, laxed)
+			} else {
+				out.Count("mode:raw-position-not-checked")
 			}
 			oneTBS(parsed.RawTBSCertificate, class)
 			if r.Intn(6) == 0 {
@@ -805,10 +878,10 @@ func TestVerifC11(t *testing.T) {
 		}
 		check("ParseCertificates", der, c11Call(func() (interface{}, error) {
 			cs, err := ParseCertificates(der)
-			if err != nil && IsFatal(err) {
+			if cs == nil {
 				return nil, err
 			}
-			return cs, err
+			return cs, err // unmodified: an (object, fatal) pair must show up as incoherent
 		}))
 	}
 
@@ -883,8 +956,10 @@ func TestVerifC11(t *testing.T) {
 		nfe := 0
 		fatal := false
 		anyLax := ""
+		var picks []int
 		for j := 0; j < k; j++ {
 			x := r.Intn(len(pool))
+			picks = append(picks, x)
 			if poolLax[x] {
 				anyLax = "lax-piece "
 			}
@@ -908,13 +983,36 @@ func TestVerifC11(t *testing.T) {
 		default:
 			exp.class = "none"
 		}
+		var gotCerts []*Certificate
 		got := c11Call(func() (interface{}, error) {
 			cs, err := ParseCertificates(cat)
+			gotCerts = cs
 			if cs == nil {
 				return nil, err
 			}
 			return cs, err
 		})
+		if got.obj && got.panick == "" {
+			// certificate by certificate: as many results as pieces, in order, each built from its own piece and equal to
+			// what ParseCertificate returns for that piece alone
+			if len(gotCerts) != k {
+				out.Fail(fmt.Sprintf("concat-count k=%d %s", k, verifkit.Hex(cat)), fmt.Sprintf("%d certificates returned for %d pieces", len(gotCerts), k))
+			} else {
+				off := 0
+				for j, x := range picks {
+					alone, _ := ParseCertificate(pool[x])
+					if !bytes.Equal(gotCerts[j].Raw, pool[x]) {
+						out.Fail(fmt.Sprintf("concat-piece %d/%d %s", j, k, verifkit.Hex(cat)), "Raw of the result is not the piece at that position")
+					} else if o2, ok := c11Sub(cat, gotCerts[j].Raw); !ok || o2 != off {
+						out.Fail(fmt.Sprintf("concat-piece %d/%d %s", j, k, verifkit.Hex(cat)), "Raw of the result does not alias the concatenation at the piece's offset")
+					} else if alone == nil || !reflect.DeepEqual(gotCerts[j], alone) {
+						out.Fail(fmt.Sprintf("concat-piece %d/%d %s", j, k, verifkit.Hex(cat)), "certificate differs from ParseCertificate on the piece alone")
+					}
+					off += len(pool[x])
+				}
+				out.Count("mode:concat-per-certificate-equal")
+			}
+		}
 		out.T(fmt.Sprintf("pcs %d %s", k, strings.Join(desc, " ")), got.String())
 		out.Count("class:concatenation")
 		if got.String() != exp.String() && anyLax != "" && nF7 >= 8 {
@@ -1052,7 +1150,20 @@ func c11Strs(a, b []string) bool {
 func c11Name2(a pkix.Name, b stdpkix.Name) bool {
 	return c11Strs(a.Country, b.Country) && c11Strs(a.Organization, b.Organization) && c11Strs(a.OrganizationalUnit, b.OrganizationalUnit) &&
 		c11Strs(a.Locality, b.Locality) && c11Strs(a.Province, b.Province) && c11Strs(a.StreetAddress, b.StreetAddress) &&
-		c11Strs(a.PostalCode, b.PostalCode) && a.SerialNumber == b.SerialNumber && a.CommonName == b.CommonName && len(a.Names) == len(b.Names)
+		c11Strs(a.PostalCode, b.PostalCode) && a.SerialNumber == b.SerialNumber && a.CommonName == b.CommonName && c11ATVs(a.Names, b.Names)
+}
+
+// every attribute, in order: same type, same decoded value
+func c11ATVs(a []pkix.AttributeTypeAndValue, b []stdpkix.AttributeTypeAndValue) bool {
+	if len(a) != len(b) {
+		return false
+	}
+	for i := range a {
+		if !reflect.DeepEqual([]int(a[i].Type), []int(b[i].Type)) || fmt.Sprint(a[i].Value) != fmt.Sprint(b[i].Value) {
+			return false
+		}
+	}
+	return true
 }
 
 func c11OIDs(a []asn1.ObjectIdentifier, b []asn1Std) bool {
@@ -1107,7 +1218,6 @@ func c11Compare(f *Certificate, s *stdx509.Certificate) string {
 	sort.Strings(ft)
 	sort.Strings(st)
 	ekus := reflect.DeepEqual(ft, st)
-	unk := true
 	pol := len(f.PolicyIdentifiers) == len(s.PolicyIdentifiers)
 	if pol {
 		for i := range f.PolicyIdentifiers {
@@ -1147,7 +1257,7 @@ func c11Compare(f *Certificate, s *stdx509.Certificate) string {
 		{"Version", f.Version == s.Version}, {"SerialNumber", f.SerialNumber.Cmp(s.SerialNumber) == 0},
 		{"Issuer", c11Name2(f.Issuer, s.Issuer)}, {"Subject", c11Name2(f.Subject, s.Subject)},
 		{"NotBefore", f.NotBefore.Equal(s.NotBefore)}, {"NotAfter", f.NotAfter.Equal(s.NotAfter)},
-		{"KeyUsage", int(f.KeyUsage) == int(s.KeyUsage)}, {"ExtKeyUsage", ekus}, {"UnknownExtKeyUsage", unk},
+		{"KeyUsage", int(f.KeyUsage) == int(s.KeyUsage)}, {"ExtKeyUsage+UnknownExtKeyUsage (multiset of usages)", ekus},
 		{"BasicConstraintsValid", f.BasicConstraintsValid == s.BasicConstraintsValid}, {"IsCA", f.IsCA == s.IsCA},
 		{"MaxPathLen", f.MaxPathLen == s.MaxPathLen}, {"MaxPathLenZero", f.MaxPathLenZero == s.MaxPathLenZero},
 		{"SubjectKeyId", bytes.Equal(f.SubjectKeyId, s.SubjectKeyId)}, {"AuthorityKeyId", bytes.Equal(f.AuthorityKeyId, s.AuthorityKeyId)},
@@ -1160,6 +1270,9 @@ func c11Compare(f *Certificate, s *stdx509.Certificate) string {
 		{"PermittedURIDomains", c11Strs(f.PermittedURIDomains, s.PermittedURIDomains)}, {"ExcludedURIDomains", c11Strs(f.ExcludedURIDomains, s.ExcludedURIDomains)},
 		{"CRLDistributionPoints", c11Strs(f.CRLDistributionPoints, s.CRLDistributionPoints)}, {"PolicyIdentifiers", pol},
 		{"Extensions", exts}, {"UnhandledCriticalExtensions", unh},
+		// fields only the fork has: nothing in a generated template feeds them
+		{"fork-only fields empty (SIA, RPKI, SCT list)", len(f.SubjectTimestamps) == 0 && len(f.SubjectCARepositories) == 0 && len(f.RPKIAddressRanges) == 0 &&
+			f.RPKIASNumbers == nil && f.RPKIRoutingDomainIDs == nil && len(f.RawSCT) == 0 && len(f.SCTList.SCTList) == 0},
 	} {
 		if !c.ok {
 			return c.n
